@@ -3,6 +3,7 @@
 package proto
 
 import (
+	"bytes"
 	"errors"
 	"fmt"
 	"io"
@@ -349,6 +350,70 @@ func TestVerif_C10(t *testing.T) { //nolint:cyclop,maintidx
 			cuts = append(cuts, p)
 		}
 		streamCase(fs, c10Cut(s, cuts), "wf-big-random")
+	}
+	// bulk: long streams (hundreds of frames, maximum-size frames followed by coalesced small ones) in large reads - the
+	// whole stream at once, 64 KiB reads (the client's read buffer), the server's 1600-byte reads, random large reads.
+	// Expected: exactly the frames that were written (C10_frames: for every segmentation), then EOF.
+	bulkCase := func(fs []c10Frame, segs [][]byte, tag string) {
+		got, _, end := c10RunStream(t, segs)
+		equal := len(got) == len(fs)
+		for i := 0; equal && i < len(fs); i++ {
+			equal = bytes.Equal(got[i], fs[i].raw)
+		}
+		total, maxread := 0, 0
+		for _, sg := range segs {
+			total += len(sg)
+			if len(sg) > maxread {
+				maxread = len(sg)
+			}
+		}
+		col.Add("bulk", tag, true, fmt.Sprintf("KBulk %d %d %d %s %s", len(fs), total, maxread, verifsim.CoqBool(equal), end))
+	}
+	chunks := func(b []byte, size func() int) [][]byte {
+		var out [][]byte
+		for len(b) > 0 {
+			n := size()
+			if n > len(b) {
+				n = len(b)
+			}
+			out = append(out, b[:n])
+			b = b[n:]
+		}
+		return out
+	}
+	nbulk := 3
+	if thorough {
+		nbulk = 25
+	}
+	for range nbulk {
+		var fs []c10Frame
+		nf := 150 + rng.Intn(300)
+		for range nf {
+			if rng.Chance(70) {
+				fs = append(fs, c10ChanFrame(rng, verifsim.Pick(rng, []int{1200, 1199, 1201, 160, 1, 0, 1400 + rng.Intn(100)}), "pat"))
+			} else {
+				fs = append(fs, c10StunFrame(rng, 4*rng.Intn(60)))
+			}
+		}
+		s := concat(fs)
+		bulkCase(fs, [][]byte{s}, "bulk-one-read")
+		bulkCase(fs, chunks(s, func() int { return 65535 }), "bulk-64k-reads")
+		bulkCase(fs, chunks(s, func() int { return 1600 }), "bulk-1600-reads")
+		bulkCase(fs, chunks(s, func() int { return 1 + rng.Intn(70000) }), "bulk-random-reads")
+		// a maximum-size frame whose tail arrives together with the frames after it
+		var big c10Frame
+		if rng.Bool() {
+			big = c10ChanFrame(rng, verifsim.Pick(rng, []int{65535, 65532, 65000}), "pat")
+		} else {
+			big = c10StunFrame(rng, verifsim.Pick(rng, []int{65512, 65000, 0xFFFC}))
+		}
+		gs := append([]c10Frame{big}, fs[:40]...)
+		s2 := concat(gs)
+		bulkCase(gs, [][]byte{s2}, "max-then-coalesced")
+		bulkCase(gs, chunks(s2, func() int { return 1600 }), "max-then-coalesced-1600")
+		cut := 1 + rng.Intn(len(big.raw)-1)
+		bulkCase(gs, [][]byte{s2[:cut], s2[cut:]}, "max-then-coalesced-1cut")
+		bulkCase(gs, chunks(s2, func() int { return 65535 }), "max-then-coalesced-64k")
 	}
 	// the uint16 extremes: 65535-byte ChannelData payload and a 65512-byte STUN body
 	{
